@@ -30,6 +30,7 @@ import PV.Driver.CodegenOps
 import PV.Driver.AlgoTableOps
 import PV.Driver.CoeffTableOps
 import PV.Driver.RewriteTableOps
+import PV.Driver.C18TableOps
 /-
   Driver operations: one request S-expression in, one reply S-expression out.
 -/
@@ -232,6 +233,7 @@ def handlers : List (Sexp → Option Sexp) :=
    , handleC19Table
    , handleCoeffTable
    , handleRewriteTable
+   , handleC18Table
    -- HANDLERS
   ]
 
